@@ -319,7 +319,7 @@ def main(tier="quick", seed=0, replay=None):
     props = C.check_props(PID, ALLOWED_AXIOMS, thorough=(tier == "thorough"))
 
     # ------------------------------------------------------------ generate
-    nprog = 600 if tier == "quick" else 6000
+    nprog = 600 if tier == "quick" else 3000
     progs = [("corpus", t) for t in [
         "(define (f n) (if (= n 0) '() (cons n (f (- n 1))))) (f 5) (display 'x) (car '())",
         "(define k2 #f) (define n 0) (+ 1 (call/cc (lambda (k) (set! k2 k) 1)) (* 2 3)) (set! n (+ n 1)) (if (< n 3) (k2 n) 'done)",
@@ -327,7 +327,7 @@ def main(tier="quick", seed=0, replay=None):
         RC_CYCLE_WITNESS]]
     progs += gen_programs(rng, nprog)
     cases, groups = [], []          # groups: (index of none case, [indices of scheduled cases], kind)
-    snap_budget = 160 if tier == "quick" else 1500
+    snap_budget = 160 if tier == "quick" else 1000
     for kind, text in progs:
         chunk = rng.choice([0, 0, 1024, 2048])
         base = len(cases)
